@@ -270,8 +270,40 @@ def target_registry_complete():
     return ("circuit/registry:register_element(definitions)", "circuit/registry", "register_element", run)
 
 
+def target_functions():
+    """circuit/functions.py: the helpers the translator treats as known functions really are what it assumes
+    (coth(x) == 1/tanh(x); cosh, sinh, sqrt, tanh are numpy's)"""
+    module = "circuit/functions"
+
+    def run(sess: Session):
+        tree = core.module_ast(module)
+        imported = {}
+        for n in tree.body:
+            if isinstance(n, ast.ImportFrom):
+                for a in n.names:
+                    imported[a.asname or a.name] = n.module
+        for name in ("cosh", "sinh", "sqrt", "tanh"):
+            sess.check("pre", [], z3.BoolVal(imported.get(name) == "numpy"), 0, label=f"{name} is numpy.{name}")
+        defs = [n for n in tree.body if isinstance(n, ast.FunctionDef)]
+        sess.check("cover", [], z3.BoolVal([d.name for d in defs] == ["coth"]), 0, label=f"functions defined: {[d.name for d in defs]}")
+        for fn in defs:
+            if fn.name != "coth":
+                sess.unsupported(f"function {fn.name} of circuit/functions.py has no specification", fn.lineno)
+                continue
+            body = core.strip_docstring(fn.body)
+            if not (len(body) == 1 and isinstance(body[0], ast.Return)):
+                sess.unsupported("coth is no longer a single return expression (control flow in a mathematical helper)", fn.lineno)
+                continue
+            P = Prover([])
+            x = Q(z3.Real("x_re"), z3.Real("x_im"))
+            got = Q.lift(PyTranslator(P, {fn.args.args[0].arg: x}).tr(body[0].value))
+            want = P.app("tanh", [x]).inv()
+            sess.check("post", P.hyps, P.eq_goal(got, want), fn.lineno, label="coth(x) == 1/tanh(x)")
+    return (f"{module}:coth", module, "coth", run)
+
+
 def targets():
-    ts = [target_registry_complete()]
+    ts = [target_registry_complete(), target_functions()]
     for module, cname, sym, eq, params, kind in registry():
         if kind == "ElementDefinition" and eq is not None:
             ts.append(target_element(module, cname, sym, eq, params))
